@@ -64,4 +64,24 @@ func main() {
 	o.Def("writes", "List String", "["+strings.Join(writes, ", ")+"]")
 	o.Def("cases", "List (List Char)", "["+strings.Join(cases, ",\n   ")+"]")
 	o.Def("body", "String", lib.LeanLongString(lib.NormFunc(fd)))
+
+	// the users of glob sets: both glob() builtins, the ignore test and the package walk that consults it
+	for _, u := range []struct{ file, fn, def string }{
+		{"project_builtins.go", "Project.builtin_glob", "builtinGlobBody"},
+		{"lib/os/glob.go", "glob", "osGlobBody"},
+		{"project.go", "Project.ignored", "ignoredBody"},
+		{"project.go", "Project.loadPackage", "loadPackageBody"},
+	} {
+		uf, err := lib.Parse(*repo, u.file)
+		if err != nil {
+			o.Fail("parse %s: %v", u.file, err)
+			continue
+		}
+		ufd := uf.Func(u.fn)
+		if ufd == nil {
+			o.Fail("func %s not found in %s", u.fn, u.file)
+			continue
+		}
+		o.Def(u.def, "String", lib.LeanLongString(lib.NormFunc(ufd)))
+	}
 }
